@@ -25,6 +25,15 @@ var sweepPool = []string{
 	"<{|i| yield i if i < 3; recur(i + 1)}>.new(0)", "1.try", "\"x\".try.{|s| s.nonexistent}", "Int", "Str", "Arr", "Obj", "BaseObj", "Nil", "Map", "Range", "Func", "Iter",
 	"Either", "Err", "Comparable", "Iterable", "1.bear", "\"s\".bear", "[1].bear({z: 1})", "nil.bear", "Int.bear.new(3)", "Str.bear.new(\"q\")", "Arr.bear.new([1])",
 	"[1, 2, 3]._iter", "JSON", "Kernel", "Match", "Diamond", "Float", "Num",
+	// containers whose keys / members are descendants of the built-in types (unchecked type assertions live behind these)
+	"[[\"k\".bear, 1], [\"j\", 2]]", "[['s, 1], [Str.bear.new(\"t\"), 2]]", "[1.bear, 2, Int.bear.new(3)]", "{a: 1.bear, b: \"s\".bear}", "%{\"k\".bear: 1, 1.bear: 2}",
+	"(1.bear:5.bear)", "(\"a\".bear:\"c\")", "[[1, 2].bear, [3].bear]", "[{a: 1}.bear, {a: 2}]", "[1, 2, 3, 4, 5, 6, 7]",
+}
+
+// consumers of a result: the constructs that destructure a value with type assertions of their own
+var sweepConsumers = []string{
+	"{|a, b, c| [a, b, c]}(*%s)", "{|a, k: 1| [a, k]}(**%s)", "{|a, size: 2, x: 3| [a, size, x]}(**%s)", "%s.repr", "%s.S", "%s == %s", "[*%s]", "{**%s}", "%%{**%s}",
+	"%s.keys", "%s.A", "%s@{|x| x}", "\"#{%s}\"", "%s.p", "%s.B", "%s.bear.S", "%s.hash", "[%s].sort", "%s.proto", "%s._iter.next", "%s[0]", "%s['a]", "<{|x| yield x}>.new(%s).A",
 }
 
 // names never called: they block, read files, evaluate arbitrary text or grow without bound on purpose
@@ -184,6 +193,14 @@ func runSweep(c *Ctx, mode string) {
 			argIdx = append(argIdx, i)
 		}
 	}
+	// extreme arguments are used too, except with the names that build a value of the requested size (unbounded memory)
+	extremeIdx := []int{}
+	for i, s := range sweepPool {
+		if strings.Contains(s, "9223372036854775807") || s == "1000" {
+			extremeIdx = append(extremeIdx, i)
+		}
+	}
+	sizeProps := map[string]bool{"*": true, "times": true, "**": true, "ljust": true, "rjust": true, "center": true}
 	forced := false // inside a group of calls that must run in the same process
 	call := func(src string, tag string) {
 		if !forced && !c.Mine() {
@@ -203,6 +220,9 @@ func runSweep(c *Ctx, mode string) {
 		rec := Rec{Impl: o.Kind, Src: src, NT: true, Tags: []string{tag, "outcome-" + o.Kind}}
 		if o.Kind == "err" {
 			rec.Tags = append(rec.Tags, "err-"+o.ErrKind)
+		}
+		if (tag == "alias" || tag == "consumer") && o.Kind == "syntax" {
+			rec.Skip = "probe-does-not-parse"
 		}
 		switch mode {
 		case "C01":
@@ -226,6 +246,43 @@ func runSweep(c *Ctx, mode string) {
 			}
 		}
 		c.Em.Emit(rec)
+		if mode == "C01" && o.Kind == "val" {
+			slot := fmt.Sprintf("r%d", (nres-1)%64)
+			// type-directed consumers always run; the rest are sampled at the quick tier
+			picked := []string{}
+			if v, ok := env.Get(object.GetSymHash(slot)); ok {
+				switch v.(type) {
+				case *object.PanObj:
+					picked = append(picked, sweepConsumers[1], sweepConsumers[2], sweepConsumers[7])
+				case *object.PanArr:
+					picked = append(picked, sweepConsumers[0], sweepConsumers[6])
+				case *object.PanMap:
+					picked = append(picked, sweepConsumers[8])
+				}
+			}
+			if c.Thorough() {
+				picked = sweepConsumers
+			} else if c.Rng.Intn(4) == 0 {
+				k := c.Rng.Intn(len(sweepConsumers))
+				picked = append(picked, sweepConsumers[k], sweepConsumers[(k+1)%len(sweepConsumers)])
+			}
+			for _, cons := range picked {
+				n := strings.Count(cons, "%s")
+				as := make([]interface{}, n)
+				for x := range as {
+					as[x] = slot
+				}
+				co := c.It.RunIn(env, fmt.Sprintf(cons, as...), "", 60000)
+				crec := Rec{Impl: co.Kind, Src: src + " ; " + fmt.Sprintf(cons, as...), NT: true, Tags: []string{"consumer", "outcome-" + co.Kind}}
+				if co.Kind == "panic" {
+					crec.Oracle = "host-level panic: " + co.Panic
+				}
+				if co.Kind == "fuel" {
+					crec.Skip = "fuel"
+				}
+				c.Em.Emit(crec)
+			}
+		}
 	}
 	quick := !c.Thorough()
 	// alias probes (C06): the same receiver used twice in a row with small fresh arguments, both results kept: a result that
@@ -262,7 +319,11 @@ func runSweep(c *Ctx, mode string) {
 				call(fmt.Sprintf("[*a%d, *%s]", ri, a), "alias")
 				call(fmt.Sprintf("{**a%d, **%s}", ri, a), "alias")
 				call(fmt.Sprintf("%%{**a%d, **%s}", ri, a), "alias")
-				call(fmt.Sprintf("{|*xs| xs}(*a%d, %s)", ri, a), "alias")
+				call(fmt.Sprintf("{|x, y, z, w| [x, y, z, w]}(*a%d, %s)", ri, a), "alias")
+				call(fmt.Sprintf("{|a: 0, b: 0, q: 0, r: 0| [a, b, q, r]}(**a%d, **%s)", ri, a), "alias")
+				call(fmt.Sprintf("{|x, y, z, w| [x, y, z, w]}(*a%d, *%s)", ri, a), "alias")
+				call(fmt.Sprintf("[*a%d, %s]", ri, a), "alias")
+				call(fmt.Sprintf("{zz: %s, **a%d}", a, ri), "alias")
 				forced = false
 			}
 		}
@@ -284,6 +345,16 @@ func runSweep(c *Ctx, mode string) {
 					call(fmt.Sprintf("%s(p%d, p%d)", expr, a, b), "arity2")
 				}
 			}
+			if !sizeProps[name] {
+				for _, a := range extremeIdx {
+					if quick && c.Rng.Intn(3) != 0 {
+						continue
+					}
+					call(fmt.Sprintf("%s(p%d)", expr, a), "extreme1")
+					b := argIdx[c.Rng.Intn(len(argIdx))]
+					call(fmt.Sprintf("%s(p%d, p%d)", expr, b, a), "extreme2")
+				}
+			}
 			// keyword arguments and literal calls
 			if c.Rng.Intn(4) == 0 {
 				call(fmt.Sprintf("%s(private?: true, sep: p%d, base: p%d)", expr, argIdx[c.Rng.Intn(len(argIdx))], argIdx[c.Rng.Intn(len(argIdx))]), "kwargs")
@@ -299,6 +370,12 @@ func runSweep(c *Ctx, mode string) {
 			call(fmt.Sprintf("p%d$(p%d){|acc, x| acc}", i, a), "chain")
 			call(fmt.Sprintf("p%d@^p%d", i, a), "varcall")
 			call(fmt.Sprintf("p%d(p%d)", i, a), "call")
+		}
+		// slices with boundary bounds and steps (the index arithmetic must not leave int64 or the receiver)
+		bounds := []string{"", "0", "1", "-1", "2", "-2", "3", "4", "100", "-100", "9223372036854775807", "(-9223372036854775807 - 1)", "-9223372036854775807", "9223372036854775806"}
+		for n := 0; n < map[bool]int{true: 40, false: 400}[quick]; n++ {
+			a, b, s := bounds[c.Rng.Intn(len(bounds))], bounds[c.Rng.Intn(len(bounds))], bounds[c.Rng.Intn(len(bounds))]
+			call(fmt.Sprintf("p%d[%s:%s:%s]", i, a, b, s), "slice")
 		}
 	}
 }
